@@ -64,6 +64,7 @@ type Solver struct {
 	trace    io.Writer
 	sawError bool
 	qseq     int
+	lastRel  []*Term // the conjuncts the last live query asserted
 }
 
 func NewSolver(workDir string, seed int) (*Solver, error) {
@@ -192,6 +193,29 @@ func (s *Solver) body(t *Term) string {
 		return fmt.Sprintf("(ite (bvslt %s %s) (- (bv2nat %s) %s) (bv2nat %s))", x, smtConst(BVC(w, 0)), x, pow2str(w), x)
 	case OApp:
 		panic("uninterpreted applications are ackermannised by the engine")
+	case OFAdd, OFSub, OFMul, OFDiv:
+		name := map[Op]string{OFAdd: "fp.add", OFSub: "fp.sub", OFMul: "fp.mul", OFDiv: "fp.div"}[t.Op]
+		return fmt.Sprintf("(%s RNE %s %s)", name, s.ref(t.Args[0]), s.ref(t.Args[1]))
+	case OFNeg:
+		sb.WriteString("fp.neg")
+	case OFLt:
+		sb.WriteString("fp.lt")
+	case OFLe:
+		sb.WriteString("fp.leq")
+	case OFEq:
+		sb.WriteString("fp.eq")
+	case OFIsNaN:
+		sb.WriteString("fp.isNaN")
+	case OFIsNeg:
+		sb.WriteString("fp.isNegative")
+	case OFRound32:
+		return fmt.Sprintf("((_ to_fp 11 53) RNE ((_ to_fp 8 24) RNE %s))", s.ref(t.Args[0]))
+	case OFFromBits:
+		return fmt.Sprintf("((_ to_fp 11 53) %s)", s.ref(t.Args[0]))
+	case OFFromSBV:
+		return fmt.Sprintf("((_ to_fp 11 53) RNE %s)", s.ref(t.Args[0]))
+	case OFFromInt:
+		return fmt.Sprintf("((_ to_fp 11 53) RNE (to_real %s))", s.ref(t.Args[0]))
 	default:
 		sb.WriteString(opNames[t.Op])
 	}
@@ -312,6 +336,7 @@ func (s *Solver) CheckBase(pc []*Term, extra *Term, timeoutMs int, wantModel boo
 		// without a base model the answer model must cover the whole pc
 		rel, relVars = pc, nil
 	}
+	s.lastRel = rel
 	s.Stats.Conjuncts += len(rel)
 	s.Stats.ConjunctsTotal += len(pc)
 	refs := make([]string, 0, len(rel)+1)
